@@ -754,6 +754,7 @@ static void op_new (char **w, int n)
       "keepalive-conncheck", atoi (kv (w, n, "keepalive", "0")),
       "max-connectivity-checks", atoi (kv (w, n, "maxchecks", "100")),
       "idle-timeout", atoi (kv (w, n, "idle", "5000")), NULL);
+  if (kv (w, n, "bytestream", NULL)) g_object_set (g->agent, "bytestream-tcp", atoi (kv (w, n, "bytestream", "0")), NULL);
   if (kv (w, n, "stunsrv", NULL)) {
     struct sockaddr_in sa; char ip[32];
     if (parse_ipport (kv (w, n, "stunsrv", NULL), &sa)) {
@@ -951,6 +952,27 @@ int main (void)
       if (e) { printf ("ok ret %zd err %s-%d\n", r, g_quark_to_string (e->domain), e->code); g_error_free (e); }
       else printf ("ok ret %zd\n", r);
       for (k = 0; k < nv; k++) free ((void *) v[k].buffer);
+    }
+    else if (!strcmp (w[0], "recvnb") && n == 5 && (g = find_ag (w[1]))) {
+      /* nice_agent_recv_messages_nonblocking into ONE message scattered over exactly-sized buffers of the given sizes
+       * (a,b,c); the buffers are pre-filled with 0xEE so that a gap left by the library shows in the gathered bytes */
+      GInputVector v[16]; int nv = 0, k; GError *e = NULL; gint r; char *tok, *save = NULL; NiceInputMessage m; gsize left;
+      for (tok = strtok_r (w[4], ",", &save); tok && nv < 16; tok = strtok_r (NULL, ",", &save)) {
+        long l = atol (tok); if (l < 0 || l > 1 << 20) break;
+        v[nv].buffer = malloc (l ? (size_t) l : 1); if (l == 0) { free (v[nv].buffer); v[nv].buffer = malloc (0); }
+        memset (v[nv].buffer, 0xEE, (size_t) l); v[nv].size = (gsize) l; nv++;
+      }
+      m.buffers = v; m.n_buffers = nv; m.from = NULL; m.length = 0;
+      r = nice_agent_recv_messages_nonblocking (g->agent, atoi (w[2]), atoi (w[3]), &m, 1, NULL, &e);
+      total_dispatches += iterate_ready ();
+      if (e) { printf ("ok ret %d err %s-%d", r, g_quark_to_string (e->domain), e->code); g_error_free (e); }
+      else printf ("ok ret %d", r);
+      printf (" len %zu data ", r > 0 ? (size_t) m.length : 0);
+      left = r > 0 ? m.length : 0;
+      if (left == 0) putchar ('-');
+      for (k = 0; k < nv && left > 0; k++) { gsize c = left < v[k].size ? left : v[k].size; print_hex (v[k].buffer, c); left -= c; }
+      putchar ('\n');
+      for (k = 0; k < nv; k++) free (v[k].buffer);
     }
     else if (!strcmp (w[0], "restart") && n == 2 && (g = find_ag (w[1]))) { printf ("ok ret %d\n", nice_agent_restart (g->agent)); total_dispatches += iterate_ready (); }
     else if (!strcmp (w[0], "restartstream") && n == 3 && (g = find_ag (w[1]))) { printf ("ok ret %d\n", nice_agent_restart_stream (g->agent, atoi (w[2]))); total_dispatches += iterate_ready (); }
